@@ -376,6 +376,11 @@ func (c *Ctx) effectsExcluding(fn *ssa.Function, depth int, skip map[string]bool
 
 // addPartRules: a part enters the set only behind bounds, slot, proof and index-binding guards (shared by C04, C13, C18).
 func addPartRules(c *Ctx) {
+	// a part is acceptable up to and including the full part size (every part of a large block but the last is full)
+	if fn := c.Fn("types", "Part", "ValidateBasic"); fn != nil {
+		partSize := c.P.Const("types", "BlockPartSizeBytes")
+		c.Guarded(fn, "return nil", SuccessReturn(0, ""), G("len(part.Bytes) <= BlockPartSizeBytes", Cmp(`^call:len\(part\.Bytes\)$`, "<=", `^const:`+partSize+`$`)))
+	}
 	// ---- AddPart ------------------------------------------------------------------------------------
 	if fn := c.Fn("types", "PartSet", "AddPart"); fn != nil {
 		c.Guarded(fn, "store ps.parts[part.Index] / count++", StoreTo(`^&ps\.(parts\[part\.Index\]|count)$`),
@@ -465,6 +470,17 @@ func (c *Ctx) deriveShaCoverage() {
 				loops = append(loops, l)
 			}
 		}
+	}
+	// the trie keeps each value until Hash is called, the encoder reuses one pooled buffer: every item is handed over
+	// as its own copy, or item i is hashed with the bytes of item i+1
+	if enc := c.Fn("types", "", "encodeForDerive"); enc != nil {
+		n, ok := 0, true
+		for _, in := range findInstrs(enc, AnyReturn()) {
+			n++
+			r := pathOf(in.(*ssa.Return).Results[0])
+			ok = ok && re(`^call:(lib/common\.CopyBytes|bytes\.Clone)\(|^call:append\((nil|const:nil|\[\]byte\(nil\)|make:)`).MatchString(r)
+		}
+		c.Check("S", fnName(enc)+"/returns a copy of the pooled buffer's bytes", n >= 1 && ok, enc.Pos(), n, "")
 	}
 	for _, in := range findInstrs(fn, CallTo(`^types\.encodeForDerive$`, "")) {
 		a := callCommon(in).Args
